@@ -1,6 +1,6 @@
 """C18 — validation levels only change when errors surface, never the result.
 
-Oracle (real library only), four kinds of case:
+Oracle (real library only), five kinds of case:
 
 levels   a valid document (props/_docgen.py) is loaded at levels 0..3 (list entry point; version explicit or
          inferred).  Every level must accept it.  At every level the same five observations are taken, in this order:
@@ -36,6 +36,16 @@ assign   assignment scripts (enumerated exhaustively, table ASSIGN x modes): a l
                                containment / edge of the multiplied segment (L, C, E records)
            converted           the corresponding line of Gfa.to_gfa2() / Gfa.to_gfa1() (custom tags only)
            split-header        the single-tag line of Gfa.headers which carries the tag
+         and, since the level of a line of a Gfa is the level of the Gfa whatever the ORDER in which its lines arrived:
+           first-line          the record is the FIRST line of the text given to gfapy.Gfa(text, vlevel=k): no version
+                               argument, no header, the lines it mentions (and a segment, if it mentions none) follow,
+                               so the record is parsed while the version of the Gfa is still unknown (E, F, G, O, U: the
+                               version is inferred from this very line; S: from its syntax; L, C, P, custom records wait
+                               in the queue until a later line tells the version; comments are stored at once)
+           first-line-added    the same lines given one by one to add_line() of an empty Gfa(vlevel=k), then
+                               process_line_queue()
+                               (all records but the headers; fields as in `connected`; these exhaustive cases come
+                               after the scripts, so that the indices of the earlier cases are what they were)
          Then:
          - v valid:   set (line.set(f, v) or attribute assignment), get, field_to_s, str, validate_field, validate never
                       raise at any level and str(line) carries no "# INVALID" marker;
@@ -67,6 +77,29 @@ script   a sequence of legal public calls on the tags of one line (records of AS
          combinations of record, mode, ways of the three steps, family, read_first) and remove / assign-again for one
          existing custom tag and one predefined tag per record; 12% of the random cases are scripts of 3-8 calls over
          2-5 tag names.
+linelevel  (8% of the random cases) every line of a Gfa of level k is a line of level k, whenever it arrived: a valid
+         random document (props/_docgen.py, GFA2 two times out of three) is loaded WITHOUT telling the version (no
+         version argument; half of the documents have no VN header tag either) through Gfa(text), Gfa(list) or
+         add_line + process_line_queue.  One line which is neither a header nor a comment (half of the time a
+         GFA2-only record E/F/G/O/U if there is one) is marked with the tag zq:Z:mark and moved: to the front of the
+         document (60%), behind the leading comments / headers without VN (15%), anywhere (25%) - so it mostly
+         arrives before the lines it mentions and before anything tells the version.  The marked line (found again
+         through its tag) is then assigned, each time on a freshly built Gfa, at levels 0-3, by set() or by attribute:
+         one valid value (marker tag / new tag zr), one invalid value of the marker tag or of a new tag (tab, newline,
+         a number for a Z tag) and up to two clear-cut invalid values of its assignable positional fields (those of
+         the table ASSIGN for the record type: alignment, positions, disp, var, sequence, slen, pos ...).  Demands and
+         signatures are those of `assign`.  A document which some level does not accept is not judged here (that is
+         `levels` / `mono`).
+
+FINDING ON THE UNCHANGED TREE (genuine, not hidden; signature `comment-before-version-known`, 8 exhaustive cases:
+  record #1, fields content / spacer, modes first-line / first-line-added)
+  a comment line which arrives while the version of the Gfa is unknown (e.g. the first line of a file, before any
+  header or segment) is built by Creators.__add_line_unknown_version() as gfapy.Line(s, dialect=...) WITHOUT
+  vlevel, i.e. at the default level 1 whatever the level of the Gfa.  On such a comment of a Gfa(vlevel=3)
+  `c.content = "a\nb"`, `c.spacer = "\n"`, `c.content = 5` are accepted silently (level 3 must report at the
+  assignment); in a Gfa(vlevel=2) `c.content = 5` is written as "# 5" by str(c) / field_to_s without error or
+  "# INVALID" marker (level 2 must report when the line is written).  The same comment after a segment line behaves
+  as the level demands.
 
 NOT CHECKED:
   * connected lines (and lines derived from them which stay connected: merged, multiplied, converted): reference
@@ -85,6 +118,9 @@ NOT CHECKED:
   * acceptance in `mono` is the constructor only (a level-0 Gfa may still fail later, when a field is read);
   * in `levels` the fields are read with get() only, in the order of Gfa.lines; the equality of the text before
     and after reading at one level is not demanded (the property compares levels, not moments);
+  * first-line modes: headers (the header of a Gfa is one merged line, not the line parsed); linelevel: headers and
+    comments are never the marked line, tags other than the marker / a new one are not assigned, only the fields
+    which the table ASSIGN assigns on connected lines of the record type, custom records: tags only;
   * derived lines: one fixed small graph per operation (no random graphs); a line object built at one level and
     added to a Gfa of another level, and a change of Gfa.vlevel after construction, are not exercised; converted
     lines: positional fields and predefined tags (renamed / recomputed by the conversion) are not assigned.
@@ -97,12 +133,15 @@ RULE = ("levels: valid documents <=12 lines (quick) x 4 levels; text, observatio
         "text+observation after all fields have been read are compared; mono: one-character mutants of "
         "valid documents x 4 levels, acceptance monotone; assign: exhaustive table of (record, field, value kind) x level x "
         "origin of the line (stand-alone, connected, cloned, disconnected, merged segment x 3, multiplied copy, "
-        "version-converted, split header) x set()/attribute; script: legal call sequences on the tags of one line "
+        "version-converted, split header, first line of a Gfa whose version is not told - text / add_line) x set()/attribute; "
+        "linelevel (8% of the random cases): one marked line of a valid random document loaded without telling the "
+        "version, mostly moved to the front (it arrives before the lines it mentions and before the version is known), "
+        "is assigned valid and invalid values (tags, assignable positional fields) x 4 levels, same demands as assign; script: legal call sequences on the tags of one line "
         "(set, attribute assignment, delete, set None, get, attribute read, str; new, custom and predefined tags; "
         "valid values only) x 4 levels: nothing raises, the line is readable, writable, valid and the same at every "
         "level (exhaustive part: create/remove/create-again and remove/assign-again scripts; 12% of the random cases: "
         "3-8 calls). Non-trivial: a document with a tag of a delayed datatype "
-        "or >= 3 lines; every assign and script case.")
+        "or >= 3 lines; every assign, linelevel and script case.")
 CASE_TIMEOUT = 60
 
 # ----------------------------------------------------------------------------------------------- assignment table
@@ -555,7 +594,7 @@ def gen_case(rng, tier, i):
 
 
 def nontrivial(case):
-    if case["kind"] in ("assign", "script"):
+    if case["kind"] in ("assign", "script", "linelevel"):
         return True
     return len(case["lines"]) >= 3 or any(":B:" in l or ":J:" in l or ":H:" in l for l in case["lines"])
 
@@ -581,6 +620,12 @@ def tags(case):
     t = [case["kind"], case["version"], "version-param" if case["ver_param"] else "version-inferred"]
     if case["kind"] == "mono":
         t.append("mut:" + case["mutation"])
+    if case["kind"] == "linelevel":
+        tl = case["lines"][case["target"]]
+        t += ["how:" + case["how"], case["via"], "target:" + tl.split("\t")[0][:1],
+              "target-first" if case["target"] == 0 else "target-later"]
+        if not any(l[:1] == "S" or "VN:Z:" in l for l in case["lines"][:case["target"]]):
+            t.append("target-before-version-known")
     t += case.get("features", [])
     for l in case["lines"]:
         for x in l.split("\t")[1:]:
@@ -1193,13 +1238,39 @@ def oracle(case):
     F = oracle_assign(case)
     if case["mode"] in FIRST and case["record"].startswith("#"):
         # finding on the unchanged tree (see the module docstring): its own signature
-        F = ["comment-before-version-known/" + x for x in F]
+        F = ["comment-before-version-known: " + x for x in F]
     return F
 
 
 def shrink(case, failure):
     if case["kind"] == "assign":
         return case
+    if case["kind"] == "linelevel":
+        # lines other than the marked one are removed, then entries, while the signature stays
+        sig = failure.split(":")[0]
+        cur = dict(case)
+
+        def same(c):
+            try:
+                return any(f.split(":")[0] == sig for f in oracle(c))
+            except Exception:  # noqa
+                return False
+        changed = True
+        while changed:
+            changed = False
+            for i in range(len(cur["lines"]) - 1, -1, -1):
+                if i == cur["target"]:
+                    continue
+                c = dict(cur, lines=cur["lines"][:i] + cur["lines"][i + 1:], target=cur["target"] - (1 if i < cur["target"] else 0))
+                if same(c):
+                    cur = c
+                    changed = True
+            for i in range(len(cur["entries"]) - 1, -1, -1):
+                c = dict(cur, entries=cur["entries"][:i] + cur["entries"][i + 1:])
+                if c["entries"] and same(c):
+                    cur = c
+                    changed = True
+        return cur
     if case["kind"] == "script":
         sig = failure.split(":")[0]
         cur = dict(case)
